@@ -310,7 +310,10 @@ pub fn gen_scen(rng: &mut Rng, _thorough: bool) -> Scen {
             let nc = 2 + rng.below(2) as usize;
             let mut sc = base_scen("failure");
             sc.opts = vec![s("-n"), s("20"), s("--num-concurrent"), nc.to_string()];
-            let bad = match rng.below(5) { 0 => json!({"wait": true, "exit": 3, "stdout": "{\"objFuncVal\": 1}"}), 1 => json!({"wait": true, "stdout": "this is not json"}),
+            let bad = match rng.below(7) { 0 => json!({"wait": true, "exit": 3, "stdout": "{\"objFuncVal\": 1}"}), 1 => json!({"wait": true, "stdout": "this is not json"}),
+                                           // a well-formed result followed by more output (a second document, a log line): not a result
+                                           5 => json!({"wait": true, "stdout": "{\"objFuncVal\": 1}\nTraceback (most recent call last):\n"}),
+                                           6 => json!({"wait": true, "stdout": "{\"objFuncVal\": 1} {\"objFuncVal\": 2}"}),
                                            2 => json!({"wait": true, "stdout": "{\"objFuncVal\": 1, \"extra\": 2}"}), 3 => json!({"wait": true, "stdout": ""}), _ => json!({"wait": true, "stdout": "{\"objFuncVal\": 1e999}"}) };
             let failing = rng.below(nc as u64);
             let mut seeds = serde_json::Map::new();
@@ -332,6 +335,15 @@ pub fn gen_scen(rng: &mut Rng, _thorough: bool) -> Scen {
         8 => {
             // per-evaluation time limit: slow ones are killed with their group and counted as rejected
             let n = 2 + rng.below(5) as usize;
+            if rng.chance(1, 6) {
+                // the degenerate limit: `-k 0ms` means every evaluation exceeds its limit at once; all are killed with
+                // their groups and counted as rejected, so the run ends without a single accepted result
+                let mut sc = base_scen("kill-zero");
+                sc.opts = vec![s("-n"), n.to_string(), s("-k"), s(*rng.pick(&["0ms", "0s"])), s("--num-concurrent"), (1 + rng.below(2)).to_string()];
+                sc.plan = json!({"default": {"wait": true, "value_of_seed": "neg", "fork": *rng.pick(&["none", "keep"]), "ignore_term": rng.chance(1, 2)}});
+                sc.expect = json!({"exit": "fail", "starts": n, "survivors": 0, "stdoutLines": 0});
+                return sc;
+            }
             let mut sc = base_scen("kill-after");
             sc.opts = vec![s("-n"), n.to_string(), s("-k"), s("1200ms"), s("--num-concurrent"), (1 + rng.below(2)).to_string()];
             let mut seeds = serde_json::Map::new();
@@ -353,6 +365,9 @@ pub fn gen_scen(rng: &mut Rng, _thorough: bool) -> Scen {
                 sc.opts = vec![s("-n"), n.to_string(), s("-k"), s("1900ms"), s("--num-concurrent"), (1 + rng.below(2)).to_string()];
                 if let Some(sd) = (0..n).find(|sd| !seeds.contains_key(&sd.to_string())) { seeds.insert(sd.to_string(), json!({"sleep_ms": 1400, "value_of_seed": "neg", "medium": true})); }
             }
+            // with a target that cannot be reached (the values are -seed) nothing changes: a timed-out evaluation is
+            // counted as rejected and the run goes on to its budget
+            if rng.chance(1, 2) { sc.opts.push(s("--target-obj-func-val=-1e12")); }
             sc.plan = json!({"default": {"value_of_seed": "neg"}, "seeds": seeds});
             sc.expect = json!({"exit": "ok", "starts": n, "survivors": 0, "accepted": n - slow, "rejected": slow, "fastNotKilled": true});
             sc
